@@ -409,6 +409,20 @@ func checkC18(ctx *Ctx, r *Report) {
 	checkProcessCopiesFirst(ctx, r, "copycheck/use")
 }
 
+// c18IRCopies runs the copy analysis over the DeepCopy methods of the IR: the properties that rest on "each language /
+// each chain works on its own copy of the schemas" (C03, C07) are only as good as these copies.
+func c18IRCopies(ctx *Ctx, r *Report) {
+	n := 0
+	for _, m := range findCopyMethods(ctx) {
+		if m.pkg.PkgPath == astPkgPath {
+			n++
+			c18Method(ctx, r, m)
+		}
+	}
+	r.Count("DeepCopy methods of the IR", n)
+	r.Floor("DeepCopy methods of the IR", 20)
+}
+
 func c18Method(ctx *Ctx, r *Report, m copyMethod) {
 	info := m.pkg.TypesInfo
 	name := ctx.FuncName(m.obj)
@@ -560,7 +574,9 @@ func c18Method(ctx *Ctx, r *Report, m copyMethod) {
 					j.why = ""
 					T := f.Type()
 					if p.elemT != nil {
-						T = p.elemT
+						// an element-wise store writes into the container the shallow copy shares with the source: it
+						// replaces nothing (and changes the original)
+						continue
 					}
 					if j.fresh(p.expr, T) {
 						replaced = true
